@@ -352,6 +352,19 @@ func genC05Sums(t *rapid.T) c05Case {
 		}
 		s.Book.Recs = nr
 	}
+	// chains of one-line recipes whose product lands on a rounding half (259 x 0.45 x 1.5 = 174.825): the order in which
+	// the factors are multiplied shows in the last printed digit
+	nchain := rapid.IntRange(0, 3).Draw(t, "nchain")
+	for ci := 0; ci < nchain; ci++ {
+		vals := [][3]string{{"259", "0.45", "1.5"}, {"3", "0.15", "0.7"}, {"33.333", "0.15", "1.5"}, {"7", "2.675", "0.3"}, {"1.1", "1.1", "1.1"}, {"0.1", "0.7", "1.5"}}[rapid.IntRange(0, 5).Draw(t, "chainv")]
+		a, b, r := fmt.Sprintf("ch~%da", ci), fmt.Sprintf("ch~%db", ci), fmt.Sprintf("ch~%dr", ci)
+		s.Book.Recs = append(s.Book.Recs,
+			vRec{Head: r, HL: vLayout{EOL: "\n"}, Lines: []vLine{{Kind: vkEntry, Name: a, Num: vals[0], L: plain}}},
+			vRec{Head: a, HL: vLayout{EOL: "\n"}, Lines: []vLine{{Kind: vkEntry, Name: b, Num: vals[1], L: plain}}},
+			vRec{Head: b, HL: vLayout{EOL: "\n"}, Lines: []vLine{{Kind: vkEntry, Name: "x", Num: vals[2], L: plain}}})
+		s.Recipes = append(s.Recipes, r)
+		day.Lines = append(day.Lines, vLine{Kind: vkEntry, Name: r, Num: "1", L: plain})
+	}
 	s.Log = vDoc{Recs: []vRec{day, day2}}
 	s.Days = []int{0, 1}
 	return c05Case{S: s, MaxDepth: 10, Element: "x", Food: "."}
